@@ -410,7 +410,7 @@ func init() {
 
 	// ---- histories (Engine B) ---------------------------------------------------------------------
 	alphabet := []string{"P1.register", "P2.register", "P1.unregister", "P1.alias", "P1.delalias0", "P1.delalias1", "P1.event", "P2.event", "P1.unevent",
-		"P1.link", "P1.monitor", "P2.link", "P1.meta", "P1.normal", "P1.kill", "N.register-P2"}
+		"P1.link", "P1.monitor", "P2.link", "P1.meta", "P1.normal", "P1.kill", "N.register-P2", "P2.normal"}
 	spec := harn.OpSeqSpec{Alphabet: alphabet, DepthQuick: 4, DepthThorough: 5, NoDedupQuick: 2, NoDedupThorough: 3}
 	spec.Run = func(hist []int, fail func(kind, format string, a ...any)) string {
 		key := ""
@@ -541,11 +541,19 @@ func init() {
 					if evOwner == who {
 						evOwner = ""
 					}
-					deadAliases = append(deadAliases, aliases...)
-					deadAliases = append(deadAliases, metas...)
-					aliases, metas = nil, nil
-					for k := range rel {
-						delete(rel, k)
+					if who == "P1" {
+						deadAliases = append(deadAliases, aliases...)
+						deadAliases = append(deadAliases, metas...)
+						aliases, metas = nil, nil
+						for k := range rel {
+							delete(rel, k)
+						}
+					} else { // P2 goes: only what was P2's goes with it
+						for k := range rel {
+							if strings.HasPrefix(k, who) {
+								delete(rel, k)
+							}
+						}
 					}
 				}
 				// invariants in every state
@@ -584,6 +592,10 @@ func init() {
 							fail("alias-list-mismatch", "after %v: P1 lists aliases %v, model has %v", namesOf(alphabet, hist[:step+1]), info.Aliases, aliases)
 						}
 					}
+				}
+				// the event is in the node's table exactly when it has an owner
+				if _, ok := w.n.events.Load(gen.Event{Name: "ev", Node: w.n.name}); ok != (evOwner != "") {
+					fail("event-table-mismatch", "after %v: the event is registered=%v in the node's table, model owner %q", namesOf(alphabet, hist[:step+1]), ok, evOwner)
 				}
 				// the event is claimable by someone else exactly when it has no owner
 				if evOwner == "" && alive["P2"] {
